@@ -541,6 +541,8 @@ func c03RouteMatchers(w *World, r *Report, pa *pipelineAnchors, fa *factoryAncho
 	}
 	fn := fa.createRule
 	r.Analysed(w.FnName(fn))
+	var hostCtor, ppCtor *ssa.Function
+	defer func() { c03GlobDelimiters(w, r, hostCtor, ppCtor) }()
 	// the route literal: an allocation of a struct with a RouteMatcher field
 	n := 0
 	eachInstr(fn, func(in ssa.Instruction) {
@@ -613,6 +615,7 @@ func c03RouteMatchers(w *World, r *Report, pa *pipelineAnchors, fa *factoryAncho
 						want["methods"] = true
 					case arg0 != nil && pathEndsWith(arg0, "Matcher", "Hosts"):
 						want["hosts"] = true
+						hostCtor = c.Common().StaticCallee()
 						// polarity of the hosts slot: the element's dynamic type
 						ht := ""
 						if ct, isCT := stripToNamed(el); isCT != "" {
@@ -622,6 +625,7 @@ func c03RouteMatchers(w *World, r *Report, pa *pipelineAnchors, fa *factoryAncho
 						r.Ob(ri2, key+"|hosts-any-of", a.Pos(), pol[ht] == "any", "the hosts conditions must be combined with an any-of combinator (found "+ht+"="+pol[ht]+"): with all-of, two exact hosts can never both match")
 					case arg0 != nil && pathEndsWith(arg0, "PathParams"):
 						want["path_params"] = true
+						ppCtor = c.Common().StaticCallee()
 						// all-of and the rule's slash handling
 						if len(c.Common().Args) > 1 {
 							_, shField := slashField(w, pa)
@@ -967,10 +971,11 @@ func checkC08(w *World, r *Report) {
 	c08Defaults(w, r, pa, fa)
 	c03Decode(w, r, pa)
 	c08LookupKey(w, r)
+	c08ReceivedRawPath(w, r)
 }
 
 func c08CaseInsensitive(w *World, r *Report) {
-	ri := r.Rule("C08.1", 3, "percent-encoded triplets are searched for in both hex cases (RFC 3986 2.1)")
+	ri := r.Rule("C08.1", 1, "percent-encoded triplets are searched for in both hex cases (RFC 3986 2.1)")
 	nth := map[string]int{}
 	for _, fn := range w.Funcs {
 		if w.isMockFn(fn) || !strings.HasPrefix(fnPkgPath(fn), modPath+"/internal") {
@@ -1174,7 +1179,7 @@ func c08Defaults(w *World, r *Report, pa *pipelineAnchors, fa *factoryAnchors) {
 }
 
 func c08LookupKey(w *World, r *Report) {
-	ri := r.Rule("C08.5", 1, "the path handed to the rule lookup is normalised (percent-encoded unreserved characters decoded), so equivalent encodings select the same rule")
+	ri := r.Rule("C08.5", 2, "the path handed to the rule lookup is the received one (RawPath when present, else Path), normalised (percent-encoded unreserved characters decoded), so equivalent encodings select the same rule and an encoded slash never becomes a separator")
 	ra, err := findRepo(w)
 	if err != nil {
 		r.Undecided(ri, err.Error())
@@ -1199,6 +1204,21 @@ func c08LookupKey(w *World, r *Report) {
 			}
 		}
 		r.Ob(ri, w.FnName(fn)+"|lookup-key-normalised", c.Pos(), !raw || norm, "the still percent-encoded RawPath is compared byte-wise with the rules' path expressions: /%41bc does not select the rule for /Abc")
+		// ... and on the path as received, never on a re-encoding of the decoded path: EscapedPath()
+		// (String(), RequestURI()) silently fall back to encoding URL.Path when the received raw path
+		// is not in net/url's canonical form, which turns an encoded slash into a separator
+		reenc := dependsOn(w, c.Common().Args[1], func(v ssa.Value) bool {
+			cc, ok := v.(*ssa.Call)
+			if !ok {
+				return false
+			}
+			switch callName(cc.Common()) {
+			case "net/url.URL.EscapedPath", "net/url.URL.String", "net/url.URL.RequestURI", "net/url.PathEscape":
+				return true
+			}
+			return false
+		})
+		r.Ob(ri, w.FnName(fn)+"|lookup-key-as-received", c.Pos(), !reenc, "the lookup key is a re-encoding of the request URL (EscapedPath/String/RequestURI): for a raw path that is not in canonical form the decoded path is encoded again and %2F becomes a path separator")
 	}
 }
 
